@@ -32,8 +32,6 @@ def sample_cfg(rng, clean=None):
     ds = dict(type=t, forces=(t != 0 and rng.random() < 0.7), energies=(t != 0 and rng.random() < 0.4))
     kind = rng.choice(["none", "plain", "plain", "gonze", "wang"])
     fc = rng.choice(["none", "none", "full", "compact"])
-    if name == "p4" and fc == "compact":
-        fc = "full"  # primitive cell = supercell: one layout
     # the options save() does not record
     onp = dict(W.NP_OBJ0)
     if rng.random() < 0.45 or name in ("tetsnf", "tetloose"):
@@ -58,6 +56,8 @@ def sample_cfg(rng, clean=None):
     elif r < 0.45:   # anything
         anp.update(snf=rng.random() < 0.5, tol=rng.choice(["unset", "default", "loose"]), issym=rng.random() < 0.7,
                    dense=rng.random() < 0.7, factor=rng.choice(["unset", "own"]))
+    if name == "fe2":
+        anp["issym"] = onp["issym"]  # (whether the two Fe atoms are symmetry images depends on the moments)
     args = dict(isCompact=rng.random() < 0.6, produceFc=rng.random() < 0.8, isNac=rng.random() < 0.85,
                 nacArg=False, bornFile=False, fsFile=0, fcFile="none", calcArg="none", cells=dict(NO_CELLS), fmt="vasp",
                 smatArg=False, pmatArg=False, np=anp)
@@ -89,7 +89,15 @@ def sample_cfg(rng, clean=None):
             if not (args["smatArg"] and args["pmatArg"] and src in ("ucfile", "unitcell")):
                 args.update(fsFile=0, fcFile="none", nacArg=False, bornFile=False)
                 env.update(FS=0, FC="none", H5="none", BORN=False)
-    return dict(obj=obj, st=st, comp=comp, args=args, env=env, big=rng.random() < 0.25)
+    return one_layout(dict(obj=obj, st=st, comp=comp, args=args, env=env, big=rng.random() < 0.25))
+
+
+def one_layout(cfg):
+    """cells whose primitive cell is the supercell have a single force-constants layout (written as 'full')"""
+    o = cfg["obj"]
+    if o["fc"] == "compact" and (o["cell"]["name"] == "p4" or (o["cell"]["name"] == "tetloose" and o["np"]["tol"] == "default")):
+        o["fc"] = "full"
+    return cfg
 
 
 RAISED_DUMMY = dict(calc="none", units="std", scale="same",
@@ -126,7 +134,7 @@ def run_one(cfg, seed, gonze_budget=1.0):
             obs["scale"] = "same"
             q["phonons"] = -1
             comparable = (cfg["args"]["calcArg"] == "none" and obs["cell"]["src"] == "yaml"
-                          and obs["np"]["order"] == w.obj_order
+                          and obs["np"]["order"] == w.obj_order and obs["np"]["tol"] == o["np"]["tol"]
                           and (obs["fc"]["src"] == "yaml" or (obs["fc"]["src"] == "produced" and obs["fc"]["sym"]
                                                                and obs["ds"]["src"] == "yaml"
                                                                and obs["np"]["issym"] == bool(o["np"]["issym"])))
@@ -272,7 +280,7 @@ def focus_cfg(rng):
         a["np"] = dict(snf=o["np"]["snf"], tol=o["np"]["tol"], issym=o["np"]["issym"], dense=o["np"]["dense"],
                        factor="own" if o["np"]["factor"] == "own" else "unset")
     cfg["big"] = False
-    return cfg
+    return one_layout(cfg)
 
 
 def saveload_layer(ctx, col, replay_cfgs=None):
@@ -346,7 +354,7 @@ def saveload_layer(ctx, col, replay_cfgs=None):
 MC_MODEL = r"""---- MODULE MC_SaveLoad ----
 EXTENDS SaveLoad
 B == BOOLEAN
-Cell0 == [name |-> "nacl", ext |-> FALSE, mag |-> "none", masses |-> "std", generic |-> FALSE, snfS |-> FALSE, fragile |-> FALSE, sid |-> TRUE]
+Cell0 == [name |-> "nacl", ext |-> FALSE, mag |-> "none", masses |-> "std", generic |-> FALSE, snfS |-> FALSE, fragile |-> FALSE, sid |-> TRUE, allIndep |-> FALSE]
 DsAll == {[type |-> 0, forces |-> FALSE, energies |-> FALSE]} \cup
          {[type |-> t, forces |-> f, energies |-> e] : t \in {1, 2}, f \in B, e \in B}
 NacAll == {[kind |-> "none", factor |-> FALSE]} \cup {[kind |-> k, factor |-> f] : k \in {"plain", "gonze", "wang"}, f \in B}
@@ -388,7 +396,7 @@ EnvsD == {[FS |-> 0, FC |-> b, H5 |-> "none", BORN |-> FALSE] : b \in {"none", "
 (* run E: the options save() does not record, as constructor options and as arguments of load() *)
 NpObjAll == {[snf |-> a, tol |-> b, issym |-> c, dense |-> d, factor |-> e] : a \in B, b \in {"default", "loose"}, c \in B, d \in B, e \in {"default", "own"}}
 NpArgAll == {[snf |-> a, tol |-> b, issym |-> c, dense |-> d, factor |-> e] : a \in B, b \in {"unset", "default", "loose"}, c \in B, d \in B, e \in {"unset", "own"}}
-ObjsE == {[cell |-> [Cell0 EXCEPT !.snfS = s, !.fragile = fr, !.sid = ~s], calc |-> "none", ds |-> [type |-> 1, forces |-> df, energies |-> FALSE],
+ObjsE == {[cell |-> [Cell0 EXCEPT !.snfS = s, !.fragile = fr, !.sid = ~s, !.allIndep = fr], calc |-> "none", ds |-> [type |-> 1, forces |-> df, energies |-> FALSE],
            fc |-> f, nac |-> [kind |-> "none", factor |-> FALSE], np |-> n] : s \in B, fr \in B, df \in B, f \in {"none", "full"}, n \in NpObjAll}
 StsE == {[fs |-> "unset", disp |-> "unset", fc |-> "unset", born |-> "unset", eps |-> "unset"]}
 ArgsE == {[isCompact |-> TRUE, produceFc |-> TRUE, isNac |-> TRUE, nacArg |-> FALSE, bornFile |-> FALSE, fsFile |-> 0, fcFile |-> "none", calcArg |-> "none",
